@@ -711,6 +711,10 @@ func (ar *asyncRunner) onRejected(call FunctionCall) Value {
 	return _undefined
 }
 
+func (ar *asyncRunner) stepResult(res Value, resType resultType, ex *Exception) (Value, bool, *Exception) {
+	return res, resType == resultNormal, ex
+}
+
 func (ar *asyncRunner) step(res Value, done bool, ex *Exception) {
 	r := ar.f.runtime
 	if done || ex != nil {
@@ -723,7 +727,15 @@ func (ar *asyncRunner) step(res Value, done bool, ex *Exception) {
 	}
 
 	// await
-	promise := r.promiseResolve(r.getPromise(), res)
+	var promise *Object
+	if ex := r.vm.try(func() {
+		promise = r.promiseResolve(r.getPromise(), res)
+	}); ex != nil {
+		// Await: ? PromiseResolve(%Promise%, value). Reading value.constructor can throw: the exception belongs to the
+		// await expression, inside the function body (and its try/catch), not to whoever happens to be driving it.
+		ar.step(ar.stepResult(ar.gen.nextThrow(ex.val)))
+		return
+	}
 	promise.self.(*Promise).addReactions(&promiseReaction{
 		typ:         promiseReactionFulfill,
 		handler:     &jobCallback{callback: ar.onFulfilled},
